@@ -36,12 +36,19 @@ func (c kase) String() string {
 }
 
 type ctx struct {
-	run     *core.Run
-	vnode   string
-	work    string
-	refs    map[string]*reference
-	recLogs map[string][]string // "<workload>/<k>" → write sites of the recovery run
-	refMu   sync.Mutex
+	run       *core.Run
+	vnode     string
+	work      string
+	refs      map[string]*reference
+	recLogs   map[string][]string  // "<workload>/<k>" → write sites of the recovery run
+	snaps     map[string]*snapshot // "<workload>/<k>" → directory image left by the first crash (thorough)
+	keepSnaps bool
+	refMu     sync.Mutex
+
+	phaseMu sync.Mutex
+	phaseN  map[string]int
+	phaseT  map[string]time.Duration
+	marks   []string
 
 	procs        int64 // subprocesses started
 	crashRuns    int64
@@ -72,10 +79,12 @@ var parallel = func() int {
 
 func main() {
 	run := core.Start("C06", "fault_enumeration", "CRASHNODE")
-	c := &ctx{run: run, work: run.WorkDir(), refs: map[string]*reference{}, recLogs: map[string][]string{}, classes: core.NewCounter(), samples: core.NewSampler(8, run.Seed), inconcl: core.NewCounter()}
+	c := &ctx{run: run, work: run.WorkDir(), refs: map[string]*reference{}, recLogs: map[string][]string{}, snaps: map[string]*snapshot{}, keepSnaps: !run.Quick() && run.ReplayPath == "", classes: core.NewCounter(), samples: core.NewSampler(8, run.Seed), inconcl: core.NewCounter()}
 	os.RemoveAll(c.work)
 	os.MkdirAll(c.work, 0755)
+	t0 := time.Now()
 	c.buildVnode()
+	c.mark("build vnode", t0)
 
 	if run.ReplayPath != "" {
 		var k kase
@@ -121,9 +130,12 @@ func main() {
 	}
 
 	// ---- references (write sequence W, reference dump) ----
+	t0 = time.Now()
 	for _, kind := range kinds {
 		c.reference(kind)
 	}
+	c.mark("reference runs", t0)
+	t0 = time.Now()
 
 	// ---- first level: every k in 1..W ----
 	var first []kase
@@ -135,6 +147,8 @@ func main() {
 	// kinds interleaved, so that a cut by the budget covers every kind equally
 	sort.SliceStable(first, func(a, b int) bool { return first[a].K < first[b].K })
 	outcomes := c.runAll(first, start.Add(budget))
+	c.mark("first level", t0)
+	t0 = time.Now()
 	firstDone := 0
 	for _, o := range outcomes {
 		if o != nil {
@@ -175,6 +189,10 @@ func main() {
 		first = append(first, second...)
 	}
 
+	if !run.Quick() {
+		c.mark("second level", t0)
+	}
+	t0 = time.Now()
 	// ---- candidates → 5/5 confirmation → report ----
 	type cand struct {
 		k kase
@@ -244,6 +262,7 @@ func main() {
 		}(key, cs)
 	}
 	wg.Wait()
+	c.mark("confirmation", t0)
 
 	// ---- evidence ----
 	wInfo := map[string]interface{}{}
@@ -282,6 +301,8 @@ func main() {
 		"candidates_not_reproduced": unconfirmed,
 		"outcome_classes":           c.classes.Map(),
 		"exhaustive":                exhaustive,
+		"wall_by_stage":             c.marks,
+		"subprocess_wall":           c.phaseReport(),
 		"samples":                   c.samples.List(),
 		"not_covered":               "raft engine (gemmill/consensus/raft/fsm.go Apply) — out of scope of this driver; power-loss semantics; multi-validator recovery; multi-part blocks",
 	}
@@ -293,6 +314,10 @@ func main() {
 		"interpretation of 'block store, consensus state and application agree on one height': the block store found at a restart must be able to load every block up to the height its own descriptor advertises (the descriptor is what makes a block visible, property anchors); a descriptor ahead of a complete block is reported as store-advertises-unreadable-block even though pbft's WAL replay later rewrites the block",
 		"single validator; validator-set change = the validator raises its own voting power through the admin-operation path (a second, absent validator would add proposer rounds that depend on timeouts, and the cached-proposer finding of C07/C16 would interfere)",
 	})
+}
+
+func (c *ctx) mark(what string, t0 time.Time) {
+	c.marks = append(c.marks, fmt.Sprintf("%s %.1fs", what, time.Since(t0).Seconds()))
 }
 
 func sigString(sig map[string]string) string {
